@@ -21,6 +21,10 @@ theorem embSH_J (hs : List Spec.Name) (s : Stmt) (n : Node) (h : EmbSH hs s n) :
   | set lv v => obtain ⟨p, q, l, r, rfl, hl, hr⟩ := h; exact ⟨p, q, l, r, rfl, hl, EmbH.toEmb hs v r hr⟩
   | call f as => obtain ⟨p, q, q', ops, rfl, hops⟩ := h; exact ⟨p, q, q', ops, rfl, EmbLH.toEmbL hs as ops hops⟩
   | exit => exact h
+  | put m v lv => obtain ⟨p, q, l, r, rfl, hl, hr⟩ := h; exact ⟨p, q, l, r, rfl, hl, EmbH.toEmb hs v r hr⟩
+  | mcall o m as =>
+    obtain ⟨p, q, q', ps, rc, ops, nm, hnm, rfl, hops, hrc⟩ := h
+    exact ⟨p, q, q', ps, rc, ops, nm, hnm, rfl, EmbLH.toEmbL hs as ops hops, hrc⟩
   | _ => first | (simp [EmbSH] at h; done) | (simp only [EmbSJ]; exact h)
 
 theorem embSsH_J (hs : List Spec.Name) : ∀ (ss : List Stmt) (ns : List Node), EmbSsH hs ss ns → EmbSsJ hs ss ns
